@@ -30,6 +30,206 @@ theorem alookup_aerase (k k' : Str) (l : List (Str × Nat)) :
         simp [h1]
       · simp [h2]
 
+/-! ## host and port -/
+
+theorem indexOf_none (c : UInt8) (s : Str) (h : c ∉ s) : indexOf c s = none := by
+  induction s with
+  | nil => rfl
+  | cons x xs ih =>
+    have hx : x ≠ c := fun e => h (by simp [e])
+    have hxs : c ∉ xs := fun e => h (by simp [e])
+    simp [indexOf, hx, ih hxs]
+
+theorem indexOf_append (c : UInt8) (h p : Str) (hh : c ∉ h) : indexOf c (h ++ c :: p) = some h.length := by
+  induction h with
+  | nil => simp [indexOf]
+  | cons x xs ih =>
+    have hx : x ≠ c := fun e => hh (by simp [e])
+    have hxs : c ∉ xs := fun e => hh (by simp [e])
+    simp [indexOf, hx, ih hxs]
+
+theorem lastIndexOf_none (c : UInt8) (s : Str) (h : c ∉ s) : lastIndexOf c s = none := by
+  induction s with
+  | nil => rfl
+  | cons x xs ih =>
+    have hx : x ≠ c := fun e => h (by simp [e])
+    have hxs : c ∉ xs := fun e => h (by simp [e])
+    simp [lastIndexOf, hx, ih hxs]
+
+theorem lastIndexOf_append (c : UInt8) (h p : Str) (hp : c ∉ p) : lastIndexOf c (h ++ c :: p) = some h.length := by
+  induction h with
+  | nil => simp [lastIndexOf, lastIndexOf_none c p hp]
+  | cons x xs ih => simp [lastIndexOf, ih]
+
+theorem splitHostPort_noport (s : Str) (h : colon ∉ s) : splitHostPort s = none := by
+  unfold splitHostPort
+  rw [lastIndexOf_none colon s h]
+
+theorem splitHostPort_plain (h p : Str) (h1 : colon ∉ h) (h2 : lbr ∉ h) (h3 : rbr ∉ h)
+    (p1 : colon ∉ p) (p2 : lbr ∉ p) (p3 : rbr ∉ p) : splitHostPort (h ++ colon :: p) = some h := by
+  unfold splitHostPort
+  rw [lastIndexOf_append colon h p p1]
+  simp only
+  have hhead : (h ++ colon :: p).head? ≠ some lbr := by
+    cases h with
+    | nil => simp [colon, lbr]
+    | cons x xs =>
+      simp only [List.cons_append, List.head?_cons, ne_eq, Option.some.injEq]
+      intro e; exact h2 (by simp [e])
+  rw [if_neg hhead]
+  have ht : (h ++ colon :: p).take h.length = h := by simp
+  rw [ht, indexOf_none colon h h1]
+  have hl : lbr ∉ h ++ colon :: p := by
+    simp only [List.mem_append, List.mem_cons, not_or]
+    exact ⟨h2, by decide, p2⟩
+  have hr : rbr ∉ h ++ colon :: p := by
+    simp only [List.mem_append, List.mem_cons, not_or]
+    exact ⟨h3, by decide, p3⟩
+  rw [indexOf_none lbr _ hl, indexOf_none rbr _ hr]
+  simp
+
+theorem splitHostPort_bracket (h p : Str) (h2 : lbr ∉ h) (h3 : rbr ∉ h)
+    (p1 : colon ∉ p) (p2 : lbr ∉ p) (p3 : rbr ∉ p) :
+    splitHostPort (lbr :: h ++ rbr :: colon :: p) = some h := by
+  unfold splitHostPort
+  have e1 : lbr :: h ++ rbr :: colon :: p = (lbr :: h ++ [rbr]) ++ colon :: p := by simp
+  have hlast : lastIndexOf colon (lbr :: h ++ rbr :: colon :: p) = some (h.length + 2) := by
+    rw [e1, lastIndexOf_append colon _ p p1]; simp
+  rw [hlast]
+  simp only [List.cons_append, List.head?_cons, if_true]
+  have e2 : lbr :: (h ++ rbr :: colon :: p) = (lbr :: h) ++ rbr :: (colon :: p) := by simp
+  have hidx : indexOf rbr (lbr :: (h ++ rbr :: colon :: p)) = some (h.length + 1) := by
+    rw [e2, indexOf_append rbr (lbr :: h) (colon :: p)]
+    · simp
+    · simp only [List.mem_cons, not_or]; exact ⟨by decide, h3⟩
+  rw [hidx]
+  simp only
+  have hlen : ¬ (h.length + 1 + 1 = (lbr :: (h ++ rbr :: colon :: p)).length) := by simp
+  rw [if_neg hlen]
+  simp only [if_true]
+  have hd1 : (lbr :: (h ++ rbr :: colon :: p)).drop 1 = h ++ rbr :: colon :: p := rfl
+  have hl : lbr ∉ h ++ rbr :: colon :: p := by
+    simp only [List.mem_append, List.mem_cons, not_or]
+    exact ⟨h2, by decide, by decide, p2⟩
+  rw [hd1, indexOf_none lbr _ hl]
+  have hd2 : (lbr :: (h ++ rbr :: colon :: p)).drop (h.length + 1 + 1) = colon :: p := by
+    rw [e2]
+    have : h.length + 1 + 1 = (lbr :: h).length + 1 := by simp
+    rw [this, List.drop_append]
+    simp
+  have hr : rbr ∉ colon :: p := by
+    simp only [List.mem_cons, not_or]; exact ⟨by decide, p3⟩
+  rw [hd2, indexOf_none rbr _ hr]
+  simp only [Option.isSome_none, Bool.false_eq_true, if_false]
+  have ht : (lbr :: (h ++ rbr :: colon :: p)).take (h.length + 1) = lbr :: h := by
+    rw [e2]
+    have : h.length + 1 = (lbr :: h).length := by simp
+    rw [this, List.take_left']
+    rfl
+  rw [ht]
+  rfl
+
+theorem lowerByte_special (b c : UInt8) (hc : c = 58 ∨ c = 91 ∨ c = 93) : lowerByte b = c ↔ b = c := by
+  unfold lowerByte
+  split
+  · rename_i h
+    obtain ⟨h1, h2⟩ := h
+    have h1' := UInt8.le_iff_toNat_le.1 h1
+    have h2' := UInt8.le_iff_toNat_le.1 h2
+    constructor
+    · intro e
+      have := congrArg UInt8.toNat e
+      rw [UInt8.toNat_add] at this
+      rcases hc with rfl | rfl | rfl <;> simp at this h1' h2' <;> omega
+    · intro e
+      subst e
+      rcases hc with rfl | rfl | rfl <;> simp at h1' h2'
+  · rfl
+
+theorem lowerByte_idem (b : UInt8) : lowerByte (lowerByte b) = lowerByte b := by
+  unfold lowerByte
+  split
+  · rename_i h
+    obtain ⟨h1, h2⟩ := h
+    have h1' := UInt8.le_iff_toNat_le.1 h1
+    have h2' := UInt8.le_iff_toNat_le.1 h2
+    split
+    · rename_i h'
+      exfalso
+      have h3 := UInt8.le_iff_toNat_le.1 h'.2
+      rw [UInt8.toNat_add] at h3
+      simp at h3 h1' h2'
+      omega
+    · rfl
+  · rfl
+
+theorem asciiLower_idem (s : Str) : asciiLower (asciiLower s) = asciiLower s := by
+  unfold asciiLower
+  rw [List.map_map]
+  apply List.map_congr_left
+  intro b _
+  exact lowerByte_idem b
+
+theorem mem_asciiLower_special (c : UInt8) (hc : c = 58 ∨ c = 91 ∨ c = 93) (s : Str) :
+    c ∈ asciiLower s ↔ c ∈ s := by
+  unfold asciiLower
+  rw [List.mem_map]
+  constructor
+  · rintro ⟨b, hb, e⟩
+    rw [(lowerByte_special b c hc).1 e] at hb
+    exact hb
+  · intro h
+    exact ⟨c, h, (lowerByte_special c c hc).2 rfl⟩
+
+/-! ## the lister -/
+
+theorem lister_get_filter (l : Lister) (n n' : Str) :
+    Lister.get (l.filter (fun e => decide (e.1 ≠ n))) n' = if n = n' then none else Lister.get l n' := by
+  induction l with
+  | nil => simp [Lister.get]
+  | cons e l ih =>
+    obtain ⟨a, s⟩ := e
+    by_cases h1 : a = n
+    · subst h1
+      simp only [List.filter, ne_eq, not_true_eq_false, decide_false]
+      rw [ih]
+      by_cases h2 : a = n'
+      · simp [h2]
+      · simp [h2, Lister.get]
+    · simp only [List.filter, ne_eq, h1, not_false_eq_true, decide_true]
+      simp only [Lister.get]
+      rw [ih]
+      by_cases h2 : a = n'
+      · subst h2; simp [Ne.symm h1]
+      · simp [h2]
+
+theorem lister_get_set (l : Lister) (n : Str) (s : Spec) (n' : Str) :
+    (l.set n s).get n' = if n = n' then some s else l.get n' := by
+  unfold Lister.set
+  simp only [Lister.get]
+  by_cases h : n = n'
+  · simp [h]
+  · simp only [h, if_false]
+    rw [lister_get_filter]
+    simp [h]
+
+theorem lister_get_unset (l : Lister) (n n' : Str) :
+    (l.unset n).get n' = if n = n' then none else l.get n' :=
+  lister_get_filter l n n'
+
+theorem lister_mem_of_get (l : Lister) (n : Str) (s : Spec) (h : l.get n = some s) : (n, s) ∈ l := by
+  induction l with
+  | nil => simp [Lister.get] at h
+  | cons e l ih =>
+    obtain ⟨a, t⟩ := e
+    simp only [Lister.get] at h
+    by_cases h1 : a = n
+    · simp only [h1, if_true, Option.some.injEq] at h
+      subst h1; subst h
+      exact List.mem_cons_self
+    · simp only [h1, if_false] at h
+      exact List.mem_cons_of_mem _ (ih h)
+
 section
 variable (lower : Str → Str)
 
@@ -848,7 +1048,7 @@ theorem inv_of_deleted {c : Str} {m m' : Mgr} (hI : Inv lower m) (h : DeletedCha
     · exact hI.wf k' q h3
 
 theorem frame_of_deleted {c : Str} {m m' : Mgr} (h : DeletedChar c m m') : Frame c m m' := by
-  refine ⟨?_, ?_⟩
+  refine ⟨?_, ?_, ?_⟩
   · intro k p ci hp hci hne
     have hcl : clusterAt m k = some ci.cluster := clusterAt_of_look hp hci
     have hn : clusterAt m k ≠ some c := by rw [hcl]; intro e; cases e; exact hne rfl
@@ -866,6 +1066,12 @@ theorem frame_of_deleted {c : Str} {m m' : Mgr} (h : DeletedChar c m m') : Frame
     by_cases hk : clusterAt m k = some c
     · exact Or.inr (Or.inr hk)
     · left; rw [h.look, if_neg hk]
+  · intro k p ci hp hci _
+    rw [h.heap] at hci
+    rw [h.look] at hp
+    split at hp
+    · cases hp
+    · exact ⟨hp, hci⟩
 
 theorem deleted_of_char {c : Str} {m m' : Mgr} (hc : lower c = c) (h : DeletedChar c m m') :
     Deleted lower c m m' := by
@@ -963,7 +1169,7 @@ theorem inv_of_applied (hl : ∀ s, lower (lower s) = lower s) {c : Str} (hc : l
 theorem frame_of_applied {c : Str} {spec : Spec} {m m' : Mgr}
     (h : AppliedChar lower c spec m m') : Frame c m m' := by
   obtain ⟨p, ci', hp', hcl, _, _, _, hother, hst, _, hlook, hfree, howner⟩ := h.ex
-  refine ⟨?_, ?_⟩
+  refine ⟨?_, ?_, ?_⟩
   · intro k q ci hq hci hne
     have hclk : clusterAt m k = some ci.cluster := clusterAt_of_look hq hci
     have hn : clusterAt m k ≠ some c := by rw [hclk]; intro e; cases e; exact hne rfl
@@ -985,6 +1191,18 @@ theorem frame_of_applied {c : Str} {spec : Spec} {m m' : Mgr}
     · by_cases hn : clusterAt m k = some c
       · exact Or.inr (Or.inr hn)
       · left; rw [hlook, if_neg hk, if_neg hn]
+  · intro k q ci hq hci hne
+    have hqp : q ≠ p := by
+      intro e; subst e
+      rw [hp'] at hci; cases hci
+      exact hne hcl
+    rw [hother q hqp] at hci
+    rw [hlook] at hq
+    split at hq
+    · cases hq; exact absurd rfl hqp
+    · split at hq
+      · cases hq
+      · exact ⟨hq, hci⟩
 
 theorem applied_of_char {c : Str} (hc : lower c = c) {spec : Spec} {m m' : Mgr}
     (h : AppliedChar lower c spec m m') : Applied lower c spec m' := by
